@@ -10,6 +10,7 @@ peripheral is provably never (or not stably) brought into data exchange:
     acknowledgement a conforming slave gives (diagnostics reply accepted, short confirmation, the four readiness bits clear,
     Data reply with status DL/DH/OK and the configured length, SC for an empty input image); both `DL` and `DH` replies have one;
     no edge lowers the rank on a path class that carries only such healthy facts (a healthy peripheral is never demoted);
+    while validating, an accepted diagnostics reply whose Prm_Req bit has not been found clear leads back to parameterisation;
  c  every exit of the reply handler that stores the state or reports an event has zeroed the retry counter (otherwise accepted
     replies count as retransmissions and the peripheral is declared Offline after max_retry_limit healthy cycles);
  d  a diagnostics request does not starve data exchange: the accepted diagnostics reply clears `diag_needed`, and the service
@@ -207,6 +208,24 @@ def check_steps(ctx, P):
                            "edge %s->%s lowers the bring-up rank on a path class that carries no fault indication (fault flag, rejected reply, "
                            "`SAP not enabled`, retry limit): a healthy peripheral is thrown out of data exchange: %s" % (p, post, M.fmt_facts(e["facts"])), e["loc"])
     ctx.anchor("rank-lowering edges judged", nlower, 4)
+    # a slave that (re)started sits in Wait_Prm and says so with Prm_Req (together with Station_Not_Ready): only Set_Prm moves it on.
+    # While validating, every edge taken on an accepted diagnostics reply that has not established "Prm_Req clear" must lead back to
+    # a state that parameterises again (WaitForParam, or Offline whose way back passes WaitForParam) - never stay / advance
+    nval = 0
+    for e in edges:
+        if e["post"] is None or e["pre"] is None or not e["pre"] <= {"ValidateConfig"}:
+            continue
+        fs = e["facts"]
+        if not any(C03.is_diag_accept(k) and vs == ("in", frozenset(["Some"])) for k, vs in fs.items()):
+            continue
+        nval += 1
+        clear = any(flag_bits(k) == DIAG["prm_req"] and vs == ("in", frozenset([False])) for k, vs in fs.items())
+        ok = clear or e["post"] <= {"WaitForParam", "Offline"}
+        ctx.ob("b.prm-req", "validate|->%s%s" % ("/".join(sorted(e["post"])), "" if ok else "|prm-req-not-examined"), ok,
+               "while validating the configuration an accepted diagnostics reply leads to %s on a path class that has not established that "
+               "Prm_Req (0x0100) is clear: a restarted slave (Prm_Req + Station_Not_Ready) is polled for diagnostics for ever instead of being "
+               "parameterised again: %s" % (sorted(e["post"]), M.fmt_facts(fs)), e["loc"])
+    ctx.anchor("edges taken on an accepted diagnostics reply while validating", nval, 4)
     for r in range(5):
         name = [n for n, v in RANK.items() if v == r][0]
         ok = bool(healthy_up.get(r))
@@ -223,6 +242,44 @@ def check_steps(ctx, P):
                "DataExchange" % stv)
     ctx.anchor("ranks with a healthy rank-raising edge", len(healthy_up), 5)
     ctx.sample({"clause": "b", "healthy_edges": {str(r): sorted({e["loc"] for e in es}) for r, es in healthy_up.items()}, "rank_lowering": nlower})
+
+
+# ---- b'': the diagnostics helper rejects only what is not a diagnostics reply -----------------------------
+def check_helper_rejections(ctx, P):
+    """`diagnostics reply accepted` is an atom of the healthy vocabulary above; it is healthy only if the helper rejects (returns None)
+    for nothing but: reply is not a Data telegram, wrong DSAP / SSAP, PDU shorter than the 6-octet header."""
+    hs = [g_ for g_ in P.crate_fns(CR) if g_.name.endswith("::handle_diagnostics_response") and g_.module == "dp::peripheral"]
+    ctx.anchor("diagnostics helper of the peripheral", len(hs), 1)
+    for f in hs:
+        ctx.analysed_fns.add(f.name)
+        g = GuardAnalysis(f, P)
+        n = 0
+        bad = []
+        for b, i, s in stmts(f):
+            if not ("a" in s and s["a"].get("l") == 0 and not s["a"].get("p")):
+                continue
+            v = g.tb.rvalue(s["rv"])
+            if not (v[0] == "agg" and v[2] == "None"):
+                continue
+            for fs in g.at(b, i):
+                n += 1
+                ok = False
+                for k, vs in fs.items():
+                    if k[0] == "discr" and path_str(strip_refs(k[1])) == "telegram" and ((vs[0] == "in" and "Data" not in vs[1]) or (vs[0] == "notin" and "Data" in vs[1])):
+                        ok = True
+                    if (mentions_field(k, "dsap") or mentions_field(k, "ssap")) and (
+                            (k[0] == "cmp" and k[1] == "eq" and vs == ("in", frozenset([False]))) or (k[0] == "discr" and vs == ("in", frozenset(["None"])))):
+                        ok = True
+                    if k[0] == "cmp" and k[1] == "lt" and mentions_field(k[2], "pdu") and k[2][0] == "len" and strip_casts(k[3])[0] == "const" \
+                            and strip_casts(k[3])[1] <= 6 and vs == ("in", frozenset([True])):
+                        ok = True
+                if not ok:
+                    bad.append((f.loc(b, i), M.fmt_facts(fs)[:300]))
+        ctx.anchor("rejecting path classes of the diagnostics helper", n, 4)
+        ctx.ob("b.diag-accept", "helper-rejects-only-non-diagnostics|%s" % f.name, not bad,
+               "the diagnostics helper rejects a reply that is a well-formed diagnostics reply (Data, DSAP 62, SSAP 60, at least 6 octets): a "
+               "conforming slave whose reply takes this path is never seen Online / Configured: " + "; ".join("%s %s" % b_ for b_ in bad[:2]),
+               bad[0][0] if bad else f.loc(0))
 
 
 # ---- c: retry counter zeroed on every accepting exit of the reply handler -----------------------------
@@ -341,6 +398,7 @@ def check(ctx):
     for f in tx:
         check_polls(ctx, P, f)
     check_steps(ctx, P)
+    check_helper_rejections(ctx, P)
     for f in rx:
         check_reset(ctx, P, f)
     if tx and rx:
